@@ -3,6 +3,8 @@
    case (1 o names)            -> (0 names')                       : sorted_site (sigma_rank o)
    case (2 o construct)        -> (0 decls guard)                  : promote (sigma_rank o)
    case (3 o names)            -> (0 (x)?)                         : pop_site (sigma_rank o)
+   case (4 items)              -> (0 globals funs setup loop ok)   : transl_fixed sigma_rank   (the candidate repair)
+   case (5 o construct)        -> (0 decls guard)                  : promote_fixed (sigma_rank o)
    stmt:  (0 x t) | (1 o (body...)) if | (2 o body) while | (3 o v body) for | (4 o (body...)) try
    item:  (0 stmt) | (1 f body) | (2 body)
    construct: (0 parent ((x t)...)...) | (1 body_decls ((x t)...))
@@ -135,6 +137,16 @@ Definition run (v : wv) : wv :=
   | WL [WI 3; o; names] =>
       match un_tlist o, un_tlist names with
       | Some o, Some l => wok [wopt wtext (pop_site (sigma_rank o) l)]
+      | _, _ => wbad
+      end
+  | WL [WI 4; WL items] =>
+      match dec_items items with
+      | Some p => enc_out (transl_fixed sigma_rank p)
+      | None => wbad
+      end
+  | WL [WI 5; o; c] =>
+      match un_tlist o, dec_construct c with
+      | Some o, Some c => wok [WL (map enc_decl (promote_fixed (sigma_rank o) c)); wbool (guard c)]
       | _, _ => wbad
       end
   | _ => wbad
